@@ -132,6 +132,20 @@ Definition resolve_all (s : sdict) : option (list (str * tree) * nat) :=
     Some (flat_map (fun p => match snd p with Some t => [(fst p, t)] | None => [] end) us,
           length (filter (fun p => match snd p with None => true | Some _ => false end) us)).
 
+(* ---- while key := find_global_key(placeholder): set_global_key(key, value) -------------------------------- *)
+(* repaired: when the inserted value itself spells the placeholder the loop stops after that insertion (searching
+   again would find the value just inserted, for ever) *)
+Fixpoint insert_result (fuel : nat) (ph : str) (v : tree) (d : tree) : res tree :=
+  match fuel with
+  | O => Raise E_Fuel
+  | S f =>
+      match find_global_key ph d with
+      | Some p => bind (set_global_key d p v) (fun d' =>
+                  if contains ph (py_str_tree v) then Ok d' else insert_result f ph v d')
+      | None => Ok d
+      end
+  end.
+
 (* ---- one pass over (a copy of) the expressions table --------------------------------------------------- *)
 Definition substitute (resolved : list (str * tree)) (e : str) : str :=
   fold_left (fun acc r =>
@@ -162,7 +176,7 @@ Definition eval_pass (resolved : list (str * tree)) (s : sdict) : option (res sd
            match outcome with
            | None => None
            | Some (Some v) =>
-               match insert_literal (S (count_leaves (Dict (sd_data st)))) ph v (Dict (sd_data st)) with
+               match insert_result (S (count_leaves (Dict (sd_data st)))) ph v (Dict (sd_data st)) with
                | Ok (Dict d') => Some (Ok (mkSD d' (sd_lc st) (sd_bc st) (sd_inc st) (tdel key (sd_expr st))))
                | Ok _ => Some (Ok st)
                | Raise er => Some (Raise er)
@@ -195,7 +209,7 @@ Definition back_insert (s : sdict) : res sdict :=
   bind (fold_left (fun (acc : res (list (key * tree))) (e : N * expr_entry) =>
                      bind acc (fun d =>
                      let '(_, (expression, ph)) := e in
-                     bind (insert_literal (S (count_leaves (Dict d))) ph (Leaf (SStr expression)) (Dict d))
+                     bind (insert_result (S (count_leaves (Dict d))) ph (Leaf (SStr expression)) (Dict d))
                           (fun t => match t with Dict d' => Ok d' | _ => Ok d end)))
                   (sd_expr s) (Ok (sd_data s)))
        (fun d => Ok (mkSD d (sd_lc s) (sd_bc s) (sd_inc s) [])).
